@@ -22,11 +22,12 @@ func runRapidCase(rt *rapid.T, prod producer, layer string, maxSteps int) {
 		return rapid.Permutation(s).Draw(rt, "snapshotOrder")
 	}
 	w.fullDel = func() bool { return rapid.Bool().Draw(rt, "deleteCarriesFullState") }
-	listed := vstat.IsListed(sigStaleHTTP) || vstat.IsListed(sigStaleStream)
-	if listed {
-		// steer around the listed stale-entry findings in most cases; keep a class that still exercises them
-		w.avoidKF = rapid.IntRange(0, 9).Draw(rt, "exerciseListedFinding") >= 5
-		if !w.avoidKF {
+	// steer around the listed stale-entry findings in about half of the cases; keep a class that still
+	// exercises them (the draw is unconditional so that fail files replay identically listed or not)
+	exercise := rapid.IntRange(0, 9).Draw(rt, "exerciseListedFinding") < 5
+	if vstat.IsListed(sigStaleHTTP) || vstat.IsListed(sigStaleStream) {
+		w.avoidKF = !exercise
+		if exercise {
 			w.cls["exercise-listed-finding"] = true
 		}
 	}
@@ -55,7 +56,7 @@ func runRapidCase(rt *rapid.T, prod producer, layer string, maxSteps int) {
 func TestPropMsgLayerModel(t *testing.T) {
 	base := goroutineBaseline()
 	defer failIfInconclusive(t)
-	vstat.Checks(2500, 60000)
+	vstat.Checks(1300, 60000)
 	srv := newSnapServer()
 	func() {
 		defer srv.close()
